@@ -415,8 +415,63 @@ func pathString(path []*ssa.BasicBlock) string {
 	return "blocks " + strings.Join(s, ">")
 }
 
+// checkGetPC: the address RunUntil compares with its target is the CPU's program bank and program counter,
+// bank<<16 | pc: the 24-bit address of the instruction about to execute.
+func checkGetPC(ctx *Ctx) {
+	R := ctx.R
+	fn := ctx.Prog.Method("emulator", "System", "GetPC")
+	sysT := ctx.Prog.Pkg("emulator").Type("System")
+	if fn == nil || sysT == nil {
+		R.Fail("rununtil", "GetPC", "", "emulator.(*System).GetPC not found")
+		return
+	}
+	pos := ctx.Prog.Pos(fn.Pos())
+	sn := sysT.Type().(*types.Named)
+	ip := absint.New()
+	sp := &absint.Ptr{Nil: absint.TriF, Obj: ip.SymObj("s", sn), T: sn}
+	res, out := ip.Call(fn, []absint.Val{sp}, nil, &absint.State{Heap: absint.NewHeap(nil)})
+	rv, _ := res.(*absint.Int)
+	if out == nil || rv == nil || len(ip.Imprec) > 0 || rv.W != 32 {
+		R.Fail("rununtil", "GetPC", pos, fmt.Sprintf("not interpretable: %v", ip.Imprec))
+		return
+	}
+	// bits 0..15 are the bits of one 16-bit entry value, bits 16..23 those of one 8-bit entry value, named PC and RK
+	msg := ""
+	var pcA, rkA *absint.Atom
+	for i := 0; i < 32; i++ {
+		b := rv.Bits[i]
+		switch {
+		case i < 16:
+			if b.K != absint.BLit || b.Neg || int(b.Idx) != i || (pcA != nil && b.A != pcA) {
+				msg = fmt.Sprintf("bit %d of the result is %s, want bit %d of the program counter", i, b, i)
+			} else {
+				pcA = b.A
+			}
+		case i < 24:
+			if b.K != absint.BLit || b.Neg || int(b.Idx) != i-16 || (rkA != nil && b.A != rkA) {
+				msg = fmt.Sprintf("bit %d of the result is %s, want bit %d of the program bank", i, b, i-16)
+			} else {
+				rkA = b.A
+			}
+		default:
+			if b.K != absint.BZero {
+				msg = fmt.Sprintf("bit %d of the result is %s, want 0", i, b)
+			}
+		}
+	}
+	if msg == "" && (pcA == nil || rkA == nil || !strings.HasSuffix(pcA.Key, ".PC") || !strings.HasSuffix(rkA.Key, ".RK")) {
+		msg = fmt.Sprintf("the result is built from %v and %v, want the CPU's RK and PC", rkA, pcA)
+	}
+	if msg != "" {
+		R.Fail("rununtil", "GetPC", pos, msg)
+	} else {
+		R.Pass("rununtil", "GetPC", pos, "RK<<16 | PC of the CPU")
+	}
+}
+
 func checkRunUntil(ctx *Ctx) {
 	R := ctx.R
+	checkGetPC(ctx)
 	fn := ctx.Prog.Method("emulator", "System", "RunUntil")
 	if fn == nil {
 		R.Fail("rununtil", "function", "", "emulator.(*System).RunUntil not found")
